@@ -65,6 +65,8 @@ def decode_value(v):
             return MyInt(v[2])
         if kind == "myfloat":
             return MyFloat(v[2])
+        if kind == "strsub":
+            return type("S", (str,), {})(v[2])
         if kind == "myfloat-special":
             return MyFloat(float(v[2]))
         if kind == "tuple":
@@ -309,7 +311,7 @@ CHECKS = {"op": check_op, "without": check_without, "arity": check_arity}
 
 def strategies():
     key = st.one_of(st.sampled_from(["a", "b", "c", "k", "A", "a b", "a&b", "a=b", "a+b", "a;b", "%41", "é", "", "#", "?"]), gen.text(surrogates=False, max_tokens=3))
-    simple = st.one_of(key, key, st.integers(-10 ** 6, 10 ** 20), st.floats(allow_nan=False, allow_infinity=False), st.integers(0, 9).map(lambda i: ["@", "myint", i]),
+    simple = st.one_of(key, key, key.map(lambda k: ["@", "strsub", k]), st.sampled_from([0.0, -0.0, 1e16, -1e22]), st.integers(-10 ** 6, 10 ** 20), st.floats(allow_nan=False, allow_infinity=False), st.integers(0, 9).map(lambda i: ["@", "myint", i]),
                        st.floats(-5, 5).map(lambda f: ["@", "myfloat", f]))
     badv = st.sampled_from([["@", "bool", 1], ["@", "bool", 0], ["@", "none"], ["@", "nan"], ["@", "inf"], ["@", "-inf"], ["@", "bytes", "x"], ["@", "bytearray", "x"],
                             ["@", "memoryview", "x"], ["@", "object"], ["@", "myfloat-special", "nan"], ["@", "myfloat-special", "inf"], ["@", "myfloat-special", "-inf"]])
